@@ -760,6 +760,53 @@ let do_cfg id ins outs =
     else verdict "cfg" id "diff" tag detail
   | _ -> verdict "cfg" id "diff" "malformed-line" ""
 
+(* ---- engine clientinfo ---- *)
+let hexs (l : z list) = match l with [] -> "-" | _ -> hex_of_string (string_of_bytes l)
+
+(* sid <id> <profhex> <devhex> => <idhex> *)
+let do_sid id ins outs =
+  match ins, outs with
+  | [p; d], [res] ->
+    let m = hexs (short_id (bytes_of_token p) (bytes_of_token d)) in
+    let ok5 = (res <> "-" && String.length res = 10) in
+    if not ok5 then verdict "sid" id "spec:C14" "sid" (Printf.sprintf "device id is not five characters: %s" res)
+    else if res = m then verdict "sid" id "ok" "sid" "" else verdict "sid" id "diff" "sid" (Printf.sprintf "impl=%s model=%s" res m)
+  | _ -> verdict "sid" id "diff" "malformed-line" ""
+
+(* ci <id> <prof> <iptext> <ipraw> <mac|-> <byaddr> <bymac> => id/ip/model/name *)
+let do_ci id ins outs =
+  match ins, outs with
+  | [p; ipt; ipr; mac; ba; bm], [res] ->
+    let lst s = if s = "-" then [] else List.map bytes_of_token (String.split_on_char ',' s) in
+    let macb = if mac = "-" then None else Some (bytes_of_token mac) in
+    let ci = lan_client_info (bytes_of_token p) (bytes_of_token ipt) (bytes_of_token ipr) macb (lst ba) (lst bm) in
+    let m = String.concat "/" [hexs ci.ci_id; hexs ci.ci_ip; hexs ci.ci_model; hexs ci.ci_name] in
+    let tag = (if mac = "-" then "ip" else "mac") ^ (if lst ba = [] && lst bm = [] then "" else "+name") in
+    (* spec: the full MAC is never part of what is sent; the model field reveals at most 3 bytes *)
+    let leak = (match macb, String.split_on_char '/' res with
+        | Some mb, [_; _; model; _] when List.length mb >= 4 && model <> "-" ->
+          let full = hex_of_string (string_of_bytes (mac_string mb)) in
+          let has_sub s sub = (let n = String.length sub in let rec f i = i + n <= String.length s && (String.sub s i n = sub || f (i+1)) in f 0) in
+          has_sub res full
+        | _ -> false) in
+    if leak then verdict "ci" id "spec:C14" tag ("the full MAC appears in the client information: " ^ res)
+    else if res = m then verdict "ci" id "ok" tag "" else verdict "ci" id "diff" tag (Printf.sprintf "impl=%s model=%s" res m)
+  | _ -> verdict "ci" id "diff" "malformed-line" ""
+
+(* hdr <id> <reporting> <id> <ip> <model> <name> => <resolved> <nreq> <headers> *)
+let do_hdr id ins outs =
+  match ins, outs with
+  | [rep; cid; cip; cmodel; cname], [resolved; nreq; hs] ->
+    let ci = if rep = "1" then Some { ci_id = bytes_of_token cid; ci_ip = bytes_of_token cip; ci_model = bytes_of_token cmodel; ci_name = bytes_of_token cname } else None in
+    let names = [| "Id"; "Ip"; "Model"; "Name" |] in
+    let m = List.sort compare (List.map (fun (k, v) -> names.(int_of_z k) ^ "=" ^ hexs v) (device_headers ci)) in
+    let ms = if m = [] then "-" else String.concat "," m in
+    let tag = (if rep = "1" then "on" else "off") ^ (if rep = "1" && not (valid_header_value (bytes_of_token cname)) then "/badname" else "") in
+    if resolved <> "1" || nreq <> "1" then verdict "hdr" id "spec:C14" tag (Printf.sprintf "the query did not resolve (resolved=%s requests=%s)" resolved nreq)
+    else if rep = "0" && hs <> "-" then verdict "hdr" id "spec:C14" tag ("device headers sent with reporting off: " ^ hs)
+    else if hs = ms then verdict "hdr" id "ok" tag "" else verdict "hdr" id "diff" tag (Printf.sprintf "impl=%s model=%s" hs ms)
+  | _ -> verdict "hdr" id "diff" "malformed-line" ""
+
 let () =
   try
     while true do
@@ -774,6 +821,9 @@ let () =
       | "clist" :: id :: rest -> let (i, o) = split_arrow rest in do_clist id i o
       | "rhist" :: id :: rest -> let (i, o) = split_arrow rest in do_rhist id i o
       | "fault" :: id :: rest -> let (i, o) = split_arrow rest in do_fault id i o
+      | "sid" :: id :: rest -> let (i, o) = split_arrow rest in do_sid id i o
+      | "ci" :: id :: rest -> let (i, o) = split_arrow rest in do_ci id i o
+      | "hdr" :: id :: rest -> let (i, o) = split_arrow rest in do_hdr id i o
       | "cfg" :: id :: rest -> let (i, o) = split_arrow rest in do_cfg id i o
       | "rc" :: id :: rest -> let (i, o) = split_arrow rest in do_rc id i o
       | "storm" :: id :: rest -> let (i, o) = split_arrow rest in do_storm id i o
